@@ -15,16 +15,28 @@ META_VALUES = [
     {"k": 2},
     {"k": 1, "tag": "x"},
     {"tag": "y"},
+    {"tag": "x", "k": 1},  # equal to #2, other key insertion order
 ]
+# nested values (not hashable: never used where custom_metadata_type_limit
+# is exercised); the last two are equal with different insertion orders
+META_NESTED = [
+    {"k": 1, "n": {"a": 1, "b": [1, 2]}},
+    {"n": {"b": [1, 2], "a": 1}, "k": 1},
+]
+N_SCALAR_META = 2 + len(META_VALUES)  # indices 0..N_SCALAR_META-1
+N_ALL_META = N_SCALAR_META + len(META_NESTED)
 
 
 def meta_of(idx: int):
-    """0 -> argument absent, 1 -> {}, >=2 -> one of META_VALUES (fresh copy)."""
+    """0 -> argument absent, 1 -> {}, >=2 -> a fresh deep copy of one of
+    META_VALUES + META_NESTED (key insertion order preserved)."""
+    import copy
     if idx == 0:
         return None
     if idx == 1:
         return {}
-    return dict(META_VALUES[(idx - 2) % len(META_VALUES)])
+    table = META_VALUES + META_NESTED
+    return copy.deepcopy(table[(idx - 2) % len(table)])
 
 
 # --------------------------------------------------------------------------
@@ -50,7 +62,8 @@ def st_runs(eps_hint: int,
     run = st.tuples(
         st.integers(0, 2),
         st_count(eps_hint, min_count),
-        (st.sampled_from([0, 0, 0, 1, 2, 3, 4, 5]) if metas else st.just(0)),
+        (st.sampled_from([0, 0, 0, 1, 2, 3, 4, 4, 5, 6, 6])
+         if metas else st.just(0)),
     ).map(list)
     return st.lists(run, min_size=min_runs, max_size=max_runs)
 
